@@ -565,7 +565,7 @@ def all_obligations():
          functions=['output_regf_uninit', 'warnx', 'warn', 'failx'], flags=['--unwind', '14', '--unwinding-assertions'],
          expect=['output is closed only after ownership', 'permission bits are transferred', 'fatal path: tracked output path'], assumed=FS))
     for om, dc in (('OM_REGF', 0), ('OM_REGF', 1), ('OM_STDOUT', 0), ('OM_STDOUT', 1), ('OM_DISCARD', 1)):
-      A(Ob(name=f'main.operand_loop.{om}.{"d" if dc else "z"}', props=['C16', 'C17', 'C18', 'C07'], kind='bounded', defines={'MAIN_OM': om, 'MAIN_DECOMPRESS': str(dc)},
+      A(Ob(name=f'main.operand_loop.{om}.{"d" if dc else "z"}', props=['C16', 'C17', 'C18', 'C07', 'C21'], kind='bounded', defines={'MAIN_OM': om, 'MAIN_DECOMPRESS': str(dc)},
          bound='one loop iteration from an arbitrary between-operands state (any options, any earlier warning; operand name of 2 symbolic characters, symbolic stat data, every syscall outcome); '
                'the end-of-operand assertions re-establish that state, so the operand count is not bounded; instance: output mode ' + om + (', decompressing' if dc else ', compressing'),
          harness='h_main.c', entry='h_main',
